@@ -9,6 +9,7 @@ def run(ctx):
     P = semcheck.gen_programs(ctx.seed * 7919 + 1, n_strat, "strat", p_edge=True)
     P += semcheck.gen_programs(ctx.seed * 7919 + 2, n_loop, "negloop")
     P += common.family_small(ctx.pick(150, 2500), ctx.seed)
+    P += common.multirec_family(ctx.pick(40, 500), ctx.seed + 100)
     P += common.cyclic_family(ctx.pick(150, 2500), ctx.seed + 100)
     P += common.repvar_family(ctx.pick(80, 1000), ctx.seed + 150)
     P += common.ad_family(ctx.pick(120, 2000), ctx.seed + 200)
